@@ -450,6 +450,17 @@ fn entry(e: u32, a: usize, b: usize, w: u32, src: &mut Src) -> Result<&'static s
             must_panic("Sparse::from_triplets row out of range", || Sparse::from_triplets(rows, cols, &mut t))?;
             let mut t = vec![(0usize, oob(cols, w), 2.0f64), (0, 0, 1.0)];
             must_panic("Sparse::from_triplets column out of range", || Sparse::from_triplets(rows, cols, &mut t))?;
+            // the offending triplet in every position of a longer list, with valid triplets in earlier and later columns
+            // (a check that only looks at the first or the last entry, before or after sorting, is not enough)
+            let valid: Vec<(usize, usize, f64)> = (0..cols).map(|j| (j % rows, j, 1.0 + j as f64)).chain((0..cols).map(|j| ((j + 1) % rows, j, 3.0))).filter(|t| t.0 < rows).collect();
+            for pos in 0..=valid.len() {
+                for bad in [(oob(rows, w), 0usize, 2.0f64), (oob(rows, w), cols / 2, 2.0), (0, oob(cols, w), 2.0)] {
+                    let mut t = valid.clone();
+                    t.dedup_by(|x, y| x.0 == y.0 && x.1 == y.1);
+                    t.insert(pos.min(t.len()), bad);
+                    must_panic("Sparse::from_triplets with one out-of-range triplet among valid ones", || Sparse::from_triplets(rows, cols, &mut t))?;
+                }
+            }
             Ok("Sparse::from_triplets out of range")
         }
         53 => {
@@ -461,6 +472,15 @@ fn entry(e: u32, a: usize, b: usize, w: u32, src: &mut Src) -> Result<&'static s
             must_panic("Sparse::insert row out of range", || s.insert(oob(rows, w), 0, 1.0))?;
             must_panic("Sparse::insert column out of range", || s.insert(0, oob(cols, w), 1.0))?;
             unchanged("Sparse::insert out of range", &snap, &sp_snapshot(&s))?;
+            // the same on a matrix without stored entries
+            let mut z: Sparse<f64> = Sparse::from_triplets(rows, cols, &mut Vec::new());
+            must_panic("Sparse::get row out of range (matrix without entries)", || z.get(oob(rows, w), 0))?;
+            must_panic("Sparse::get column out of range (matrix without entries)", || z.get(0, oob(cols, w)))?;
+            must_panic("Sparse::insert row out of range (matrix without entries)", || z.insert(oob(rows, w), 0, 1.0))?;
+            must_panic("Sparse::insert column out of range (matrix without entries)", || z.insert(0, oob(cols, w), 1.0))?;
+            if z.nonzero != 0 {
+                return Err("a rejected insert changed a matrix without entries".into());
+            }
             Ok("Sparse::get/insert out of range")
         }
         54 | 55 => {
